@@ -10,6 +10,22 @@ def run(ctx):
     P = semcheck.gen_programs(ctx.seed * 7919 + 311, ctx.pick(120, 1500), "strat", evidence=False, max_worlds=128, nonground=False)
     P += common.ad_family(ctx.pick(100, 1200), ctx.seed + 31000)
     P += common.family_small(ctx.pick(60, 800), ctx.seed + 31100)
+    # probabilistic clauses (annotated disjunctions WITH a body, one or two heads) whose annotations include the boundary values 0 and 1
+    import random as _rnd
+    rb = _rnd.Random(ctx.seed + 31415)
+    for k in range(ctx.pick(80, 800)):
+        p = progs.empty_program(("c1",))
+        for f in ("d", "e"):
+            p["facts"].append({"p": [rb.randint(2, 8), 10], "atom": progs.atom(f)})
+        for _ in range(rb.randint(1, 2)):
+            hs = rb.sample(["a", "b"], rb.randint(1, 2))
+            vals = [rb.choice([0, 0, 10, 3, 5]) for _ in hs]
+            if sum(vals) > 10:
+                vals = [0 if i else vals[0] for i in range(len(vals))]
+            body = [progs.lit(progs.atom(rb.choice(["d", "e"])), 0 if rb.random() < 0.3 else 1) for _ in range(rb.randint(1, 2))]
+            p["ads"].append({"heads": [{"p": [v, 10], "atom": progs.atom(h)} for h, v in zip(hs, vals)], "body": body})
+        p["queries"] = [progs.atom(h) for h in sorted({h["atom"]["f"] for ad in p["ads"] for h in ad["heads"]})]
+        P.append(p)
     # one annotated disjunction reaching one exported atom through several of its outcomes: a rule head over a
     # non-ground call of the AD's heads, and an AD that repeats a head atom
     import random
